@@ -332,6 +332,8 @@ def compositions(n, rnd, k):
 
 
 if __name__ == "__main__":
+    import socket as _socket
+    _socket.setdefaulttimeout(20)        # a peer (or a changed library) that never answers ends a call with an error, not a hang
     cases, out, seed, n, rundir = sys.argv[2], sys.argv[3], int(sys.argv[4]), int(sys.argv[5]), sys.argv[6]
     rnd = random.Random(seed)
     recs = []
